@@ -43,6 +43,9 @@ def mh_params(draw):
     if k == "IntList":
         return ["IntList", draw(st.lists(st.integers(-9, 9), min_size=1, max_size=5))]
     if k == "FloatRange":
+        if draw(st.integers(0, 3)) == 0:
+            a = draw(st.integers(-5, 9))  # int-literal bounds, as in geml.grammars.sgp
+            return ["FloatRange", a, a + draw(st.integers(0, 9))]
         a = draw(st.sampled_from([-100.0, -1.5, -0.3, 0.0, 0.1, 9.0]))
         return ["FloatRange", a, a + draw(st.sampled_from([0.0, 0.4, 1.0, 1e3]))]
     if k == "FloatList":
